@@ -39,7 +39,7 @@ CONFIG = dict(
                   "harness/stackgen.py + c15.py abstract live greenlets to (gr_frame, bool, is-current, parent.gr_frame) and f_back chains"],
     assumptions=["CPython; a greenlet's f_back chain ends at its run function (greenlet >= 1.0 behaviour)",
                  "the greenlet tree does not change during one extraction"],
-    unproved_legs=["greenback bridges (elaborate_trampoline / elaborate_greenback_shim / elaborate_greenback_await): no Coq model; "
+    unproved_legs=["greenback in Coq: greenback bridges (elaborate_trampoline / elaborate_greenback_shim / elaborate_greenback_await): no Coq model; "
                    "C15_greenback_n of the design is replaced by the runtime differential leg (alternation depth 0..M, outside and "
                    "inside the task, shadow call log oracle, bridging frames hidden)",
                    "C15_suspended for an ancestor of the asker is proved under the hypothesis that the ancestor's chain is one of "
